@@ -81,6 +81,13 @@ func (l *Lexer) atEOF() bool {
 	return l.position >= len(l.input)
 }
 
+// atLoneCR reports whether the current character is a carriage return that is
+// not the first half of a CRLF pair. Such a character ends the line by itself
+// (ECMAScript LineTerminator); in a CRLF pair the line feed does.
+func (l *Lexer) atLoneCR() bool {
+	return l.CurrentChar == '\r' && !l.atEOF() && l.PeekChar() != '\n'
+}
+
 // PeekChar returns the next character without advancing the lexer position.
 func (l *Lexer) PeekChar() byte {
 	if l.readPosition >= len(l.input) {
@@ -96,7 +103,7 @@ func (l *Lexer) readLeadingComments() {
 	for {
 		// read whitespaces
 		for isWhitespace(l.CurrentChar) {
-			if l.CurrentChar == '\n' {
+			if l.CurrentChar == '\n' || l.atLoneCR() {
 				l.hadNewlineBefore = true
 				l.leadingComments = append(l.leadingComments, "")
 			}
@@ -110,12 +117,12 @@ func (l *Lexer) readLeadingComments() {
 			l.ReadChar()
 
 			var comment strings.Builder
-			for l.CurrentChar != '\n' && !l.atEOF() {
+			for l.CurrentChar != '\n' && !l.atLoneCR() && !l.atEOF() {
 				comment.WriteByte(l.CurrentChar)
 				l.ReadChar()
 			}
 			// omits the last newline
-			if l.CurrentChar == '\n' {
+			if l.CurrentChar == '\n' || l.atLoneCR() {
 				l.hadNewlineBefore = true
 				l.ReadChar()
 			}
